@@ -95,6 +95,7 @@ def _case(draw, tier):
             "kind": "mesh",
             "mesh": mesh,
             "fperm_seed": draw(st.integers(0, 2**16)),
+            "radius": draw(st.sampled_from([None, None, 2.5, 6371229.0])),
             "rule": draw(st.sampled_from(RULES)),
         }
     face = draw(facegen.convex_face(max_class=3, tiny=True))
@@ -329,6 +330,18 @@ def _run_mesh(case, ctx):
     if not np.allclose(a2, a_r[order], rtol=1e-12, atol=1e-16):
         i = int(np.argmax(np.abs(a2 - a_r[order])))
         fails.append(Failure("renumber", "faces", "differs", f"{rule}:{o} new face {i} (old {order[i]}, {len(faces[order[i]])} corners): {a2[i]!r} vs {a_r[order[i]]!r}"))
+    # the same mesh carrying Cartesian node coordinates on a sphere of another radius (as MPAS / Exodus sources do):
+    # areas are those of the unit sphere either way
+    if case.get("radius"):
+        ctx.ev("radius_invariant")
+        gr = build.grid_from_mesh(mesh, **build.cartesian_kw(mesh, case["radius"]))
+        for latlon in (True, False):
+            a_u = np.asarray(g.compute_face_areas(quadrature_rule=rule, order=o, latlon=latlon)[0], float)
+            a_s = np.asarray(gr.compute_face_areas(quadrature_rule=rule, order=o, latlon=latlon)[0], float)
+            if a_u.shape != a_s.shape or not np.allclose(a_s, a_u, rtol=1e-10, atol=1e-15):
+                i = int(np.argmax(np.abs(a_s - a_u))) if a_u.shape == a_s.shape else 0
+                fails.append(Failure("radius_invariant", f"latlon={latlon}", "differs", f"{rule}:{o} face {i}: {a_s[i] if a_u.shape == a_s.shape else a_s.shape!r} with node_x/y/z at radius {case['radius']}, {a_u[i] if a_u.shape == a_s.shape else a_u.shape!r} on the unit sphere"))
+                break
     # tiling
     if ok.all():
         ctx.ev("tiling_4pi")
